@@ -201,7 +201,8 @@ def run_program(case, drive, twice=False):
             h.run_piece(["start"])
             stale = (h.rec, [h.model.stats[k] for k in sorted(h.model.stats)] if getattr(h.model, "stats", None) else [])
             h.rec = Recorder()
-            h.initialize()
+            # (in half of the cases with the very replication object of the first run)
+            h.initialize(same_object=bool(case["seeds"]) and case["seeds"][0] % 2 == 1)
             stale_mark = len(stale[0].log)
         starting_log = []
         if drive[0] in ("slow-listener", "fast-listener"):
@@ -293,6 +294,9 @@ def run_program(case, drive, twice=False):
             for st_ in (getattr(h.model, "stats", None) or {}).values():
                 starting_log.append(stoch.stat_digest(st_))          # ... and at every statistic
             del starting_log[:]
+        elif drive[0] == "pause-tc":
+            # the pause is requested by a TIME_CHANGED listener (a breakpoint on the clock)
+            h.start_stop_at_time_change(drive[1], ["start"])
         elif drive[0] == "pause-other":
             # while this run is paused, unrelated work in the process initialises and runs ANOTHER simulator
             h.start_pause_after(drive[1], ["start"])
